@@ -7,12 +7,17 @@ MODULES = ["TinsModel.Props.C06"]
 AUDIT = "Audit/C06.lean"
 LEVEL = "proof"
 MANIFEST = dict(
-    text="Lean 4 theorems over a code-shaped executable model of DataTracker::process_payload (uint32 wrap explicit), "
-         "tied to the code by differential correspondence on random/exhaustive arrival histories under ASan/UBSan and by "
-         "a spec oracle (the Lean spec itself, executable) evaluated on the implementation's own output.",
-    note="Trusted: Lean kernel + standard axioms; hand-written model tied by correspondence (harness/c06_tracker.cpp); "
-         "std::map successor modelled order-theoretically; generator coverage bounds what the tie sees.",
-    technique="Lean 4 proof (invariant/refinement over arrival histories) + model/impl correspondence",
+    text="Lean 4 theorems over code-shaped executable models of DataTracker::process_payload/advance_sequence, "
+         "Flow::process_packet and the legacy TCPStream::generic_process (uint32 wrap explicit): refinement of a "
+         "set-of-arrived-positions spec for all streams, all ISNs (wrap-around included) and all arrival histories, via "
+         "an abstract tracker over absolute positions and a simulation under the key map a -> (isn+a) mod 2^32. "
+         "Tied to the code by differential correspondence on random/exhaustive arrival histories under ASan/UBSan "
+         "(DataTracker directly, Flow and TCPStreamFollower with real IP/TCP/RawPDU packets) and by a spec oracle "
+         "(the Lean spec itself, executable) evaluated on the implementation's own output.",
+    note="Trusted: Lean kernel + standard axioms; hand-written models tied by correspondence (harness/c06_*.cpp); "
+         "std::map successor modelled order-theoretically; generator coverage bounds what the tie sees; long chunks "
+         "and the delivered payload are compared through length + FNV-1a 64.",
+    technique="Lean 4 proof (invariant + simulation/refinement over arrival histories) + model/impl correspondence",
     design="DESIGN.md §6 C06")
 
 BOUNDARY_ISNS = [0, 1, 2**31 - 1, 2**31, 2**32 - 1] + [2**32 - k for k in range(2, 26)]
